@@ -19,6 +19,14 @@ def run(ctx, idx):
     ctx.rule("C03.g", "Which cells are missing is decided from the file / the inputs of THIS execution: no data command hands out arrays kept in module-level state or by a cached helper without copying them (decided before the array analyser runs) - in-place work on such an array (fill values stamped under the mask) destroys the sentinel the next reader looks for, and its missing cells come out as numbers.")
     R.no_kept_state(ctx, idx, "C03.g", None, "; the fill value stamped under the mask by one execution replaces the missing-value marker in the kept array, so the next execution finds no cell equal to it and returns the missing cells as valid numbers", copies_suffice=True)
     coverage(ctx, idx, "C03.a", "C03.b", "C03.c")
+    # "otherwise present": the one formula with a removable singularity must not leave its 0/0 cells missing
+    ctx.rule("C03.h", "A cell is missing ONLY where an input is: the exclusive-or's quotient by (truest - FUZZY_MIN) is selected away where every input is fully false (C06.d's reading) - numpy.ma masks the 0/0 there, and a store through the masked comparison afterwards writes the data but leaves that mask, so cells with no missing input come out missing.")
+    from .C06 import xor_quotient_guard as _xqg
+
+    _x = {d_.cls.name: (d_, r_) for d_, r_ in R.results(idx).values()}.get("FuzzyXOr")
+    if _x is None:
+        raise AnalysisError("C03.h: FuzzyXOr vanished")
+    _xqg(ctx, "C03.h", _x[0], _x[1], ": the cell comes out MISSING although no input is missing there")
     ctx.rule("C03.f", "A result's missing cells are its own: no command writes in place through one of its inputs (into its data or its mask buffer), or cells become missing - or stop being missing - in a result that was never computed from the cells concerned.")
     for d_, r_ in R.data_commands(idx):
         R.leaves_inputs_alone(ctx, "C03.f", d_, r_, "the producer's result gains (or loses) missing cells that do not come from its own inputs, and so does everything that shares its mask buffer or reads it afterwards")
